@@ -209,6 +209,13 @@ impl Message<UpdateConfirmationWithBroadcast> for ConfirmationActor {
                             if event.partition_sequence >= broadcast_from
                                 && event.partition_sequence <= broadcast_to
                             {
+                                #[cfg(sierradb_verif)]
+                                crate::subscription::verif::pause(
+                                    "bc:send",
+                                    format!("{}:{}", msg.partition_id, event.partition_sequence),
+                                )
+                                .await;
+
                                 match self.broadcast_tx.send(event.clone()) {
                                     Ok(0) => {
                                         // No active subscribers, stop broadcasting
@@ -224,6 +231,13 @@ impl Message<UpdateConfirmationWithBroadcast> for ConfirmationActor {
                                         break 'outer;
                                     }
                                 }
+
+                                #[cfg(sierradb_verif)]
+                                crate::subscription::verif::pause(
+                                    "bc:sent",
+                                    format!("{}:{}", msg.partition_id, event.partition_sequence),
+                                )
+                                .await;
                             }
 
                             if p > broadcast_to {
